@@ -134,6 +134,8 @@ func init() {
 		add(fmt.Sprintf("mid:%dm-1d", b), s2, s2.AddDate(0, b, -1))
 		add(fmt.Sprintf("mid:%dm", b), s2, s2.AddDate(0, b, 0))
 		add(fmt.Sprintf("mid:%dm+1d", b), s2, s2.AddDate(0, b, 1))
+		add(fmt.Sprintf("mid:%dm-12h", b), s2, s2.AddDate(0, b, 0).Add(-12*time.Hour))
+		add(fmt.Sprintf("mid:%dm+12h", b), s2, s2.AddDate(0, b, 0).Add(12*time.Hour))
 	}
 	add("3m", s1, s1.AddDate(0, 3, 0))
 	add("12m", s1, s1.AddDate(0, 12, 0))
@@ -162,7 +164,10 @@ func init() {
 // 5". A lifetime is at most k months iff the NotAfter date is not later than the
 // NotBefore date moved k calendar months on (calendar-day granularity).
 func refMinimum(l dLife) int {
-	day := func(t time.Time) time.Time { y, m, d := t.UTC().Date(); return time.Date(y, m, d, 0, 0, 0, 0, time.UTC) }
+	day := func(t time.Time) time.Time {
+		y, m, d := t.UTC().Date()
+		return time.Date(y, m, d, 0, 0, 0, 0, time.UTC)
+	}
 	nb, na := day(l.NotBefore), day(l.NotAfter)
 	switch {
 	case na.Before(nb.AddDate(0, 15, 0)):
@@ -461,17 +466,14 @@ func (p orderedPolicy) LogsByGroup(cert *x509.Certificate, approved *loglist3.Lo
 // ---- one case ---------------------------------------------------------------------------
 
 type dResult struct {
-	err       error
-	scts      []*submission.AssignedSCT
-	calls     []dCall
-	sctByLog  map[string]*ct.SignedCertificateTimestamp
-	seen      [][]string
-	mins      map[string]int
-	built     []string
-	refreshEr map[string]error
-	newErr    error
-	took      time.Duration
-	returned  bool
+	err      error
+	scts     []*submission.AssignedSCT
+	calls    []dCall
+	sctByLog map[string]*ct.SignedCertificateTimestamp
+	seen     [][]string
+	mins     map[string]int
+	newErr   error
+	returned bool
 }
 
 func dChain(c dCase) (raw [][]byte, leaf *pki.Cert) {
@@ -516,9 +518,8 @@ func dExec(c dCase) (res dResult) {
 	ctx, cancel := context.WithTimeout(context.Background(), time.Hour)
 	defer cancel()
 	if c.Refresh {
-		res.refreshEr = d.RefreshRoots(ctx)
+		d.RefreshRoots(ctx) // per-log failures are part of the script
 	}
-	start := time.Now()
 	done := make(chan struct{})
 	go func() {
 		defer close(done)
@@ -535,7 +536,6 @@ func dExec(c dCase) (res dResult) {
 		cancel()
 		<-done
 	}
-	res.took = time.Since(start)
 	cancel()
 	// let stragglers run to their end before the books are read
 	synctest.Wait()
@@ -545,7 +545,6 @@ func dExec(c dCase) (res dResult) {
 	res.sctByLog = rec.scts
 	res.seen = seen
 	res.mins = mins
-	res.built = rec.built
 	return
 }
 
@@ -555,6 +554,8 @@ type dChecker struct {
 	succ     atomic.Int64
 	fail     atomic.Int64
 	unsatHit atomic.Int64
+	mu       sync.Mutex
+	samples  map[string]any // written-out example cases, by fixed key (the reporter's own few sample slots are taken by the exploration part)
 }
 
 func (k *dChecker) check(c dCase, res dResult) {
@@ -579,8 +580,7 @@ func (k *dChecker) check(c dCase, res dResult) {
 	compat := map[string]bool{}
 	rootKnownSomewhere := false
 	for _, l := range c.Logs {
-		// a root list is only ever learnt from logs a client exists for; which logs get
-		// a client is the library's business, so knowledge is judged per log below
+		// (only names the circumstance in a signature: does some usable log vouch for the chain's root?)
 		if c.Refresh && l.Status == "usable" && (l.Roots == "include" || l.Roots == "include+other") {
 			rootKnownSomewhere = true
 		}
@@ -590,12 +590,23 @@ func (k *dChecker) check(c dCase, res dResult) {
 	}
 	satisfiable, _ := refSat(c.Policy, min, c.Logs, func(u string) bool { return compat[u] && byURL[u].Answer == "sct" })
 	mismatch := c.Pre != c.AsPre
+	r.Add("dist_cases "+strings.SplitN(c.Family, "/", 2)[0], 1)
+	if _, ok := byURL[c.V]; ok && !mismatch {
+		if compat[c.V] {
+			r.Add("dist_variant_log_compatible_cases", 1)
+		} else {
+			r.Add("dist_variant_log_incompatible_cases", 1)
+		}
+	}
 	// ---- contacted logs
 	raw, _ := dChain(c)
 	count := map[string]int{}
 	for _, call := range res.calls {
 		count[call.URL]++
 		k.contacts.Add(1)
+		if call.URL == c.V {
+			r.Add("dist_variant_log_contacted", 1)
+		}
 		l := byURL[call.URL]
 		if ok, why := refCompatible(l, life.NotAfter, c.Refresh); !ok {
 			viol(fmt.Sprintf("contacted-incompatible-log reason=%s root-known-to-some-usable-log=%v", why, rootKnownSomewhere),
@@ -615,6 +626,18 @@ func (k *dChecker) check(c dCase, res dResult) {
 		}
 		if !okChain {
 			viol("chain-altered", "log %s received a chain of %d certificates that is not the submitted chain (optionally completed by its root)", call.URL, len(call.Chain))
+		}
+	}
+	if c.V != "" && !mismatch && count[c.V] == 0 {
+		// the session order puts the variant log first: if the policy was handed a list
+		// with it and any log was contacted, it must have been among them (diagnostic of
+		// the harness' order forcing, expected 0)
+		for _, list := range res.seen {
+			for _, u := range list {
+				if u == c.V && len(res.calls) > 0 {
+					r.Add("dist_variant_log_listed_but_not_contacted", 1)
+				}
+			}
 		}
 	}
 	for u, n := range count {
@@ -668,14 +691,21 @@ func (k *dChecker) check(c dCase, res dResult) {
 		}
 		if satisfiable {
 			_, missing := refSat(c.Policy, min, c.Logs, func(u string) bool { return got[u] })
-			viol(fmt.Sprintf("failure-despite-enough-compatible-logs policy=%s reference-total=%d library-total=%s", c.Policy, min, libTotal),
+			sig := "failure-despite-enough-compatible-logs policy=" + c.Policy
+			if libTotal != "unseen" && libTotal != fmt.Sprint(min) {
+				sig += fmt.Sprintf(" reference-total=%d library-total=%s", min, libTotal)
+			}
+			viol(sig,
 				"the reference-compatible logs that answer with an SCT (%v) satisfy the policy (minimum %d), yet: %v (SCTs from %v, unmet %s; log lists handed to the policy: %v; library group minima %v)",
 				keys(compat), min, res.err, urls, missing, res.seen, res.mins)
 		}
 	}
-	if v, ok := byURL[c.V]; ok && v.Status == "usable" && v.Interval == "end==NotAfter+1s" && v.Roots == "unknown" && v.Answer == "sct" && !c.WithRoot && c.Pre && dLives[c.Life].Name == "39m" && r.WantSample() {
-		r.Sample(map[string]any{"part": "distributor", "case": c.String(), "reference_compatible": keys(compat), "reference_minimum": min,
-			"contacted": keys2(count), "scts_from": urls, "error": fmt.Sprint(res.err)})
+	if v, ok := byURL[c.V]; ok && v.Status == "usable" && v.Roots == "unknown" && v.Answer == "sct" && !c.WithRoot && c.Pre && life.Name == "39m" &&
+		(v.Interval == "end==NotAfter+1s" || v.Interval == "end==NotAfter") && strings.HasSuffix(c.Family, "needed-total") && c.Policy == "chrome" && v.Google {
+		k.mu.Lock()
+		k.samples[v.Interval] = map[string]any{"case": c.String(), "reference_compatible": keys(compat), "reference_minimum": min,
+			"contacted": keys2(count), "scts_from": urls, "error": fmt.Sprint(res.err)}
+		k.mu.Unlock()
 	}
 }
 
@@ -796,6 +826,9 @@ func dCases(thorough bool) []dCase {
 								}
 								for _, pre := range bools {
 									for _, wr := range bools {
+										if !thorough && ln != filterLives[0] && pre == wr {
+											continue // quick: the second lifetime with {cert with root, precert without} only
+										}
 										out = append(out, dCase{Family: "filter/" + pl.design, Policy: pl.policy, Logs: logs, V: dV, Life: li, Pre: pre, WithRoot: wr, AsPre: pre, Refresh: true})
 									}
 								}
@@ -928,7 +961,7 @@ func dPolicyTable(r *rep.R) {
 						}
 					}
 					if (err == nil) != ok {
-						r.Violation(fmt.Sprintf("dist-policy-satisfiability-mismatch policy=%s lib_accepts=%v reference-total=%d", pol, err == nil, min), fmt.Sprintf("%s: library err=%v, reference satisfiable=%v (minimum %d)", desc, err, ok, min), desc)
+						r.Violation(fmt.Sprintf("dist-policy-satisfiability-mismatch policy=%s lib_accepts=%v", pol, err == nil), fmt.Sprintf("%s: library err=%v, reference satisfiable=%v (minimum %d)", desc, err, ok, min), desc)
 					}
 				}
 			}
@@ -952,7 +985,7 @@ func runDistributor(t *testing.T, r *rep.R) {
 	th := r.Thorough()
 	cases := dCases(th)
 	r.Set("dist_cases", len(cases))
-	k := &dChecker{r: r}
+	k := &dChecker{r: r, samples: map[string]any{}}
 	done := enum.ParFor(len(cases), r.Expired, func(i int) {
 		c := cases[i]
 		var res dResult
@@ -970,6 +1003,7 @@ func runDistributor(t *testing.T, r *rep.R) {
 		r.Capped("deadline reached before all distributor cases were run")
 	}
 	dPolicyTable(r)
+	r.Set("dist_samples", k.samples)
 	r.Set("dist_log_contacts", k.contacts.Load())
 	r.Set("dist_successes", k.succ.Load())
 	r.Set("dist_failures", k.fail.Load())
